@@ -20,6 +20,27 @@ CHECKS = {
  "C11": ("emulator.System is probed black-box on all 2^24 addresses for reads and writes; TLC validates the recorded system page tables against the recorded real LoROM table (Agree) and MemMap.tla's SysMap is model-checked against its LoROM table.",
          "Trusted: TLC, the probe's decoding of backing array/index (self-checked by a reproduction pass).",
          "TLA+ spec (MemMap.tla SysMap) + TLC MC + TLC validation of black-box probe tables"),
+ "C03": ("Emitter.tla's method table (written from the method names, opcodes resolved through the WDC matrix in ISA.tla) is checked by TLC (every method has an ISA opcode, emitted length = architectural length under the tracked widths) and every call recorded from the real emitter -- all 90 methods cycled with boundary/random operands under all four width states, plus random programs and TLC-exported behaviours -- is validated by TLC (bytes, Len, PC); both CPUs' disassemblers must decode each emitted instruction to the same mnemonic and length.",
+         "Trusted: TLC, the WDC opcode matrix typed into tools/gen_isa.py. Operand values are sampled with boundary bias, not enumerated (2^24 operand sweep not built).",
+         "TLA+ spec (Emitter.tla + ISA.tla) + TLC MC + TLC trace validation of recorded real calls + replay of TLC behaviours"),
+ "C06": ("Emitter.tla models labels, dangling references and Finalize; TLC explores all call orders up to depth 5-6 over pads {1,126,127,128}, two labels, rel8/abs16 references, two bases (reaching distances -129..+128) and checks the patched operands; all maximal behaviours are replayed on the real emitter and random programs are validated by TLC with full VerifState comparison.",
+         "Trusted: TLC; Finalize failures are compared as a relation (only operand bytes may change, error must name a genuinely bad reference) because Go map order is nondeterministic.",
+         "TLA+ spec (Emitter.tla) + TLC exhaustive MC + replay of TLC behaviours on the real emitter + TLC trace validation"),
+ "C07": ("Emitter.tla's flag tracker and ISA.tla's decoder are model-checked for all REP/SEP/AssumeREP/AssumeSEP/immediate interleavings to depth 4-5 (decoder walk = emitter instruction starts, refusal iff width mismatch); TLC behaviours and random straight-line programs are emitted by the real Emitter and executed on BOTH real CPUs, whose opcode-fetch addresses and final M/X are validated by TLC.",
+         "Trusted: TLC, ISA.tla. Control transfers, PLP/RTI/STP are excluded as the property states; branches use displacement 0; program bytes are write-protected.",
+         "TLA+ spec (Emitter.tla + ISA.tla) + TLC MC + replay through real Emitter and both real CPUs + TLC trace validation"),
+ "C13": ("Bus.tla is model-checked exhaustively (all Attach sequences <= 3 over aligned and misaligned ranges: routing = last attach; every routing table x every Dump range/Read/Write: segment-wise dump = pointwise reads) and random histories on the real 2^20-block bus with instrumented memories are validated by TLC.",
+         "Trusted: TLC; instrumented memory doubles.",
+         "TLA+ spec (Bus.tla) + TLC exhaustive MC + TLC trace validation of recorded real histories"),
+ "C15": ("Emitter.tla's listing model is model-checked (listed bytes = emitted bytes, line addresses, issue order) over data blocks of 0,1,15,16,17,32,33 bytes, labels, comments, base; the real WriteHexTo/WriteTextTo output is parsed and compared item by item by TLC for TLC-exported behaviours and random programs (blocks up to 130 bytes, comments up to 1000 characters, before and after Finalize).",
+         "Trusted: TLC, the two small listing parsers in the harness. Domain: programs that fit; emitters with a target.",
+         "TLA+ spec (Emitter.tla) + TLC exhaustive MC + replay of TLC behaviours + TLC trace validation of parsed listings"),
+ "C16": ("EmitterMC holds direct/orig/clone emitters in one state and checks Obs(orig after Append) = Obs(direct) for every call sequence and split point to depth 3-4, original untouched while cloned, refused Append atomic; the real Clone/Append are driven by TLC-exported behaviours and random scenarios (including nil-target clones, tight capacities, splits at labels and before SetBase) and compared with full VerifState by TLC.",
+         "Trusted: TLC. Equivalence direct vs clone route is proved on the specification; the real code is bound to the specification on both routes.",
+         "TLA+ spec (Emitter.tla) + TLC exhaustive MC + replay of TLC behaviours + TLC trace validation"),
+ "C19": ("EmitterMC explores every capacity 0..8 and 20 with all call sequences to depth 4-5 and a nil-target twin (n <= cap, refusals atomic, twin tracks PC/labels/flags); real emitters are run at capacities measured by a real dry-run emitter (exact, 1-3 short, random) with every call also mirrored into a real nil-target twin, validated by TLC.",
+         "Trusted: TLC. REP/SEP update the tracker and EmitBytes appends listing records before the capacity check; the specification models both explicitly (outside what C19 lists as preserved).",
+         "TLA+ spec (Emitter.tla) + TLC exhaustive MC + replay of TLC behaviours + TLC trace validation"),
  "C17": ("Color.tla is checked exhaustively per channel (32x256x255) and per colour word; TLC exports the Scale/Luminosity tables that serve as oracle for a sweep of the real MulDiv (all 65536 colours x 256 x 255 in thorough) and validates 1e5 sampled real calls directly.",
          "Trusted: TLC integer arithmetic; divisor 0 is outside the domain.",
          "TLA+ spec (Color.tla) + TLC exhaustive MC + TLC-exported oracle tables + TLC trace validation"),
